@@ -100,7 +100,20 @@ class Ctx:
 
     # ---------------------------------------------------------------- proof step
     def proof_step(self, props_module=None, regen=None, timeout=900):
-        """Build coq deps, then freshly compile Properties_<id>.v and parse Print Assumptions."""
+        """Build coq deps, then freshly compile Properties_<id>.v and parse Print Assumptions.  The regenerated files
+        under coq/gen are shared by all runs: if another run (on a different tree) rewrote them between this run's
+        regeneration and the end of its fresh compile, the step is repeated."""
+        broken0, res = list(self.broken), None
+        for _attempt in range(3):
+            self.broken = list(broken0)
+            res = self._proof_step_once(props_module, regen, timeout)
+            if not regen or getattr(self, "_gen_sig", None) == gen_signature():
+                break
+            self.notes.append("coq/gen was rewritten by a concurrent run during the proof step of %s: step repeated"
+                              % (props_module or self.pid))
+        return res
+
+    def _proof_step_once(self, props_module=None, regen=None, timeout=900):
         props_module = props_module or ("Properties_%s" % self.pid)
         src = os.path.join(COQ, props_module + ".v")
         res = {"file": "coq/%s.v" % props_module, "theorems": [], "obligations": 0,
@@ -118,6 +131,7 @@ class Ctx:
             fcntl.flock(lk, fcntl.LOCK_EX)
             if regen:
                 regen()
+                self._gen_sig = gen_signature()
             sh([sys.executable, os.path.join(VERIF, "tools", "mkcoqproject.py")], check=True)
             rc, out, err = sh(["make", "-j16", props_module + ".vo"], cwd=COQ, timeout=timeout)
         if rc == 0:
@@ -291,6 +305,18 @@ def regen_errno(ctx):
         p = os.path.join(COQ, "gen", "ErrnoTable.v")
         if os.path.exists(p):
             os.remove(p)
+
+
+def gen_signature():
+    """digest of the regenerated Coq sources (coq/gen/*.v)"""
+    import hashlib
+    h = hashlib.sha256()
+    d = os.path.join(COQ, "gen")
+    for f in sorted(os.listdir(d)) if os.path.isdir(d) else []:
+        if f.endswith(".v"):
+            h.update(f.encode())
+            h.update(open(os.path.join(d, f), "rb").read())
+    return h.hexdigest()
 
 
 def regen_leaf(ctx, modules=None):
